@@ -110,6 +110,15 @@ var sampleTexts = []string{
 	"✁✂✃✄☎✆✇✈✉☛☞✌✍✎✏✐✑✒✓✔✕✖✗✘✙✚✛✜✝✞✟✠✡✢✣✤✥✦✧★✩✪✫✬✭✮✯✰ ∀∂∃∅∆∇∈∉∋∏∑−∕∗∘∙√∝∞∠∧∨∩∪∫∴∼≅≈≠≡≤≥⊂⊃⊄⊆⊇⊕⊗⊥⋅",
 }
 
+func init() {
+	// the whole Dingbats block, for ZapfDingbats (its pool must allow 256 pairs)
+	var rr []rune
+	for r := rune(0x2701); r <= 0x27be; r++ {
+		rr = append(rr, r)
+	}
+	sampleTexts = append(sampleTexts, string(rr))
+}
+
 type pair struct {
 	GID  int
 	Text string
@@ -247,6 +256,13 @@ type docCase struct {
 	// Overflow: new pairs are offered to a font that has no codes left (the
 	// property quantifies up to the limit; only these documents go beyond it)
 	Overflow bool `json:"overflow"`
+	// NoSpace: the first font never gets its space glyph, so that code 32 (which
+	// the simple encoders keep for "space") is the last code left when it is filled
+	NoSpace bool `json:"nospace"`
+	// LastParity: 1 / 2 = the pair that takes the first font's last free code has
+	// a text starting with an odd / even code point (the allocator scores
+	// candidate codes by the low bits of rune XOR code); 0 = whatever comes
+	LastParity int `json:"lastparity"`
 }
 
 func runes(s string) []int {
@@ -319,6 +335,10 @@ func execute(dc *docCase, kinds map[string]fontKind) (rec record, herr error) {
 	offered := map[string]bool{}
 	nOffered := make([]int, len(fonts))
 	order := make([][]pair, len(fonts))
+	isSpace := func(f, slot int) bool {
+		t := pools[f][(slot-1)%len(pools[f])].Text
+		return t == " " || t == "\u00a0"
+	}
 	bind := func(f int, it item) pair {
 		p := pools[f][(it.Slot-1)%len(pools[f])]
 		p.Text = variant(fkinds[f], p.Text, it.Slot, it.TV)
@@ -369,6 +389,9 @@ func execute(dc *docCase, kinds map[string]fontKind) (rec record, herr error) {
 		}
 		var ps []pair
 		for _, it := range st.Items {
+			if dc.NoSpace && f == 0 && isSpace(f, it.Slot) {
+				continue
+			}
 			ps = append(ps, bind(f, it))
 		}
 		switch st.Op {
@@ -379,10 +402,20 @@ func execute(dc *docCase, kinds map[string]fontKind) (rec record, herr error) {
 			}
 			for tv := 1; tv <= nTexts && nOffered[f] < rec.Fonts[f].Cap; tv++ {
 				for slot := 1; slot <= len(pools[f]) && nOffered[f] < rec.Fonts[f].Cap; slot++ {
+					if dc.NoSpace && f == 0 && isSpace(f, slot) {
+						continue
+					}
 					p := bind(f, item{Slot: slot, TV: tv})
 					k := fmt.Sprint(f, p)
 					if offered[k] {
 						continue
+					}
+					if dc.LastParity != 0 && nOffered[f] == rec.Fonts[f].Cap-1 {
+						// the pair for the last free code: odd or even first code point
+						rr := []rune(p.Text)
+						if len(rr) == 0 || int(rr[0])%2 != dc.LastParity%2 {
+							continue
+						}
 					}
 					offered[k] = true
 					order[f] = append(order[f], p)
@@ -645,9 +678,9 @@ func run(ctx *core.Ctx) error {
 	var docs []*docCase
 	type want struct{ walks, sweeps []*docCase }
 	perNF := map[int]*want{2: {}, 3: {}, 4: {}}
-	newDoc := func(primary fontKind, sweep, overflow bool) {
+	newDoc := func(primary fontKind, sweep, overflow, noSpace bool, parity int) {
 		nf := 2 + rd.Intn(3)
-		dc := &docCase{Pretty: rd.Intn(2) == 0, Overflow: overflow}
+		dc := &docCase{Pretty: rd.Intn(2) == 0, Overflow: overflow, NoSpace: noSpace, LastParity: parity}
 		dc.Fonts = append(dc.Fonts, primary.Label)
 		for len(dc.Fonts) < nf {
 			dc.Fonts = append(dc.Fonts, kinds[rd.Intn(len(kinds))].Label)
@@ -675,12 +708,26 @@ func run(ctx *core.Ctx) error {
 	}
 	for round := 0; round < rounds; round++ {
 		for _, ki := range rd.Perm(len(kinds)) {
-			// from the second round on, simple fonts also get random walks
-			newDoc(kinds[ki], kinds[ki].Simple && round%2 == 0, false)
+			k := kinds[ki]
+			if !k.Simple {
+				newDoc(k, false, false, false, 0)
+				continue
+			}
+			// a simple font's own documents: filled to 256 codes with the space glyph
+			// (last pair odd / even in turn) and without it (code 32 is left for the
+			// last pair: odd first, even in the next round); random walks in between
+			switch round % 2 {
+			case 0:
+				newDoc(k, true, false, false, 1+(ki+round/2)%2)
+				newDoc(k, true, false, true, 1)
+			default:
+				newDoc(k, false, false, false, 0)
+				newDoc(k, true, false, true, 2)
+			}
 		}
 	}
 	for i := 0; i < ctx.Pick(4, 16); i++ {
-		newDoc(simpleKinds[rd.Intn(len(simpleKinds))], true, true)
+		newDoc(simpleKinds[rd.Intn(len(simpleKinds))], true, true, i%2 == 1, 0)
 	}
 	for nf := 2; nf <= 4; nf++ { // fixed order: the seeded generator is shared
 		w := perNF[nf]
@@ -701,6 +748,12 @@ func run(ctx *core.Ctx) error {
 			kind := bs[i].Kind
 			if d.Overflow {
 				kind += "-overflow"
+			}
+			if d.NoSpace {
+				kind += "-nospace"
+			}
+			if d.LastParity != 0 {
+				kind += []string{"", "-lastodd", "-lasteven"}[d.LastParity]
 			}
 			d.Origin = fmt.Sprintf("%s/%s/v%s", kind, strings.Join(d.Fonts, "+"), d.Version)
 		}
@@ -736,6 +789,23 @@ func run(ctx *core.Ctx) error {
 		return first
 	}
 	encs, reads, overflow := 0, 0, 0
+	filled := 0
+	notFilled := map[string]bool{}
+	for _, r := range recs {
+		used := map[string]bool{}
+		for _, e := range r.Events {
+			if e.Op == "enc" && e.OK && e.F == 1 {
+				used[fmt.Sprint(e.C)] = true
+			}
+		}
+		if len(r.Fonts) > 0 && r.Fonts[0].Cap == 256 && len(used) == 256 {
+			filled++
+		} else if strings.HasPrefix(r.Origin, "sweep") && !strings.HasPrefix(r.Origin, "sweep-overflow") {
+			notFilled[fmt.Sprintf("%s (%d codes)", r.Fonts[0].Label, len(used))] = true
+		}
+	}
+	ctx.Ev.Set("documents_with_first_font_filled_to_256_codes", filled)
+	ctx.Ev.Set("sweeps_not_reaching_256_codes", core.SortedKeys(notFilled))
 	for i, r := range recs {
 		shown := false
 		for _, e := range r.Events {
